@@ -21,6 +21,9 @@ claimed = {
  "C20": ("redirect chains (301/302/303/307/308; absolute, scheme-relative, host-relative, relative, userinfo, upper-case, other-port Locations) over a simulated network of 8 hosts (trusted, sub-domains, look-alike prefixes and suffixes, IPv4) with per-host header logs, keep-alive or close, EOF on first attempt so retries interleave with redirects", "6/C20"),
  "C21": ("mixed http/https histories for the same host names through Client, HostClient (matching and mismatching IsTLS) and LBClient, redirects across schemes, minutes-long gaps so the per-host client map is cleaned in between; real crypto/tls over the simulated transport; inside-TLS server logs and a raw tap on every connection", "6/C21"),
  "C38": ("2-10 callers using DoDeadline/DoTimeout/Do on a PipelineClient with MaxPendingRequests 1-4 and MaxConns 1-2 against servers that answer, stall, close, reset or refuse; return-time bound on the simulated clock, overflowed requests never on the wire, PendingRequests back to zero", "6/C38"),
+ "C39": ("the prefork master (instrumented, os/exec.Cmd substituted by scripted children handed over through CommandProducer) with simulated GOMAXPROCS 1-4, RecoverThreshold 0-3, RecoverInterval and ShutdownGracePeriod on the fake clock, children that exit at seeded times, ignore SIGTERM or die slowly, spawn failures and hook errors at the k-th call; child ledger (spawn, signal, kill, exit, reap) and task census after return", "6/C39"),
+ "C40": ("sequential and burst histories over 2-6 fake BalancingClients with scripted pending counts, failures, AddClient/RemoveClients and sleeps around the 3 s penalty expiry; exact least-load oracle against a penalty model (cap 300, 3 s) for sequential calls, bursts of up to 340 concurrent failures, ErrNoAvailableClients on an emptied list", "6/C40"),
+ "C41": ("2-10 concurrent DialTimeout calls on a TCPDialer (Concurrency 1-3 or unbounded) with a simulated Resolver (1-4 addresses, slow, failing) and net.Dialer substituted by endpoints that accept, refuse, hang or are slow; in-progress connect monitor, rotation/all-addresses-tried oracle, wrapped ErrDialTimeout within timeout+slack on the simulated clock", "6/C41"),
  "C33": ("PipeConns stream equality and Close semantics, InmemoryListener Dial/Accept/Close pairing, under seeded interleavings of writers, readers, deadlines and closers at every channel/select/mutex operation", "6/C33"),
 }
 na = {
